@@ -90,11 +90,14 @@ def render(sel, prefixes, styles, multiline_ok=False):
         p = "a" if sel["p"] == "a" else render_iri(sel["p"], prefixes, next(it))
         other = "_" if sel["other"] == "_" else render_iri(sel["other"], prefixes, next(it))
         return "{FOCUS %s %s}" % (p, other) if sel["pos"] == "s" else "{%s %s FOCUS}" % (other, p)
+    var = sel.get("var", "v")       # the name of the answer variable is the user's choice (?v, ?Person, ?node_1 ...)
     pats = []
     for pat in sel["patterns"]:
         ts = []
         for t in pat:
-            if t.startswith("?") or t == "a":
+            if t == "?v":
+                ts.append("?" + var)
+            elif t.startswith("?") or t == "a":
                 ts.append(t)
             elif t.startswith('"'):
                 ts.append("'%s'" % t[1:-1])        # single quotes: the whole query sits between double quotes in the shape map
@@ -105,6 +108,7 @@ def render(sel, prefixes, styles, multiline_ok=False):
     # or (JSON shape maps only, where a selector may span lines) a line break
     k = sel.get("layout", 0) % len(SPARQL_LAYOUTS)
     lay = SPARQL_LAYOUTS[k if (multiline_ok or k != NEWLINE_LAYOUT) else 1]
+    lay = lay.replace("?v", "?" + var)
     return 'SPARQL "' + lay % ("distinct " if sel.get("distinct") else "", " . ".join(pats)) + '"'
 
 
